@@ -132,7 +132,7 @@ def run(chk, tier, seed):
 
     new = {k: v for k, v in acc.violations.items() if k not in known_keys}
     paths = []
-    for key, (_, what, witness) in sorted(new.items(), key=lambda kv: (tuple(kv[1][0]) if isinstance(kv[1][0], (list, tuple)) else (kv[1][0],), kv[0])):
+    for key, (_, what, witness) in sorted(new.items(), key=lambda kv: (core._flat(kv[1][0]), kv[0])):
         try:
             witness = chk.minimise(key, witness)
         except Exception:
